@@ -160,6 +160,8 @@ def special_images(r):
     # valid images with very deep nesting: recursion over the directory tree must be bounded (error) or survive
     out.append(("deep-chain-3000", sqfsimg.chain_image(3000)))
     out.append(("deep-chain-100000", sqfsimg.chain_image(100000)))
+    # a file below 150 directories with 60000 byte names: a 9 MB path for whoever builds it on the stack
+    out.append(("deep-long-names", sqfsimg.chain_image(150, name=b"n" * 60000, leaf_file=True)))
     # entry names with NUL bytes inside (the name size field says more than strlen())
     t = {b"": Node("dir", 0o755), b"a": Node("file", 0o644, data=[("bytes", b"A")]), b"b": Node("dir", 0o755), b"b/c": Node("file", 0o644, data=[("bytes", b"C")]),
          b"zzz": Node("file", 0o644, data=[("bytes", b"Z")])}
@@ -201,7 +203,8 @@ def reader_ops(B, img_path, valid_path, work, paths, r, full):
              ("cat", [B["rdsquashfs"], "-c", b"/" + p, img_path]), ("xattr", [B["rdsquashfs"], "-x", b"/" + p, img_path]),
              ("sqfs2tar-gzip", [B["sqfs2tar"], "-c", "gzip", img_path]), ("sqfsdiff-a", [B["sqfsdiff"], "-a", img_path, "-b", valid_path]),
              ("sqfsdiff-b", [B["sqfsdiff"], "-a", valid_path, "-b", img_path]), ("unpack-attrs", [B["rdsquashfs"], "-u", "/", "-p", os.path.join(work, "unp"), "-q", "-C", "-T", "-X", img_path]),
-             ("sqfs2tar-subdir", [B["sqfs2tar"], "-d", r.choice(paths) or b"d", img_path])]
+             ("sqfs2tar-subdir", [B["sqfs2tar"], "-d", r.choice(paths) or b"d", img_path]),
+             ("sqfsdiff-extract", [B["sqfsdiff"], "-a", img_path, "-b", valid_path, "-e", os.path.join(work, "unp", "ex")])]
     if full:
         ops += extra
     else:
@@ -304,6 +307,8 @@ def run_batch(arg):
                 for opname, argv in reader_ops(B, ip, valid, work, paths or [b""], r, full):
                     if name == "deep-chain-100000" and opname.startswith("sqfs2tar"):
                         continue     # takes minutes (the path of every entry is re-assembled): bounded, but not worth the time here
+                    if name == "deep-long-names" and opname not in ("sqfsdiff-extract", "describe", "sqfs2tar"):
+                        continue     # (unpack needs half a minute just to learn that the host refuses 60000 byte names)
                     up = os.path.join(work, "unp")
                     if opname.startswith("unpack"):
                         views.force_rmtree(up)
@@ -471,7 +476,7 @@ def main(tier):
     del stream_items
     sp = [(n, d, [b"", b"a", b"b", b"a/a", b"f", b"d"]) for n, d in special_images(r)]
     batches += [(i, "special", sp[k:k + 4], tier) for i, k in enumerate(range(0, len(sp), 4))]
-    spw = [(n_, d_) for n_, d_, _ in sp if n_ != "deep-chain-100000"]
+    spw = [(n_, d_) for n_, d_, _ in sp if n_ not in ("deep-chain-100000", "deep-long-names")]
     for oc in core.pmap(run_walk_batch, [(20000 + i, spw[k:k + 40], tier) for i, k in enumerate(range(0, len(spw), 40))]):
         rep.add(oc)
     for oc in core.pmap(run_batch, batches):
